@@ -773,6 +773,15 @@ func c03Status(c *Ctx) {
 				a.sum[fn] = ansOrErr
 				changed = true
 			}
+			if a.sum[fn] == ansNone && returnsBool(fn) {
+				a.boolMode = true
+				esc := a.escape(fn, false)
+				a.boolMode = false
+				if esc == nil {
+					a.sum[fn] = ansOrOK
+					changed = true
+				}
+			}
 		}
 		if !changed {
 			break
@@ -801,12 +810,20 @@ const (
 	ansNone   = 0
 	ansOrErr  = 1 // every path writes an answer or returns a non-nil error
 	ansAlways = 2
+	ansOrOK   = -1 // last result is a bool: every path writes an answer or returns true ("not answered, go on"); the
+	// caller's not-ok edge is answered by the callee (helper extracted from a handler: `x, ok := h.resolve(w, r); if !ok { return }`)
 )
 
 type answerAnalysis struct {
 	c       *Ctx
 	sum     map[*ssa.Function]int
 	blocked map[*ssa.BasicBlock]int // checked exceptions: CFG edges (block -> successor index) known to be infeasible
+	boolMode bool                   // while summarising a bool-returning helper: `return …, true` delegates to the caller
+}
+
+func returnsBool(fn *ssa.Function) bool {
+	r := fn.Signature.Results()
+	return r.Len() > 0 && ir.TypeStr(r.At(r.Len()-1).Type()) == "bool"
 }
 
 func returnsError(fn *ssa.Function) bool {
@@ -878,10 +895,19 @@ func (a *answerAnalysis) callKind(call *ssa.Call) int {
 		return ansNone
 	}
 	k := ansAlways
+	allOK := true
 	for _, f := range cals {
-		if a.sum[f] < k {
-			k = a.sum[f]
+		if a.sum[f] != ansOrOK {
+			allOK = false
 		}
+		if v := a.sum[f]; v != ansOrOK && v < k {
+			k = v
+		} else if v == ansOrOK {
+			k = ansNone
+		}
+	}
+	if allOK {
+		return ansOrOK
 	}
 	return k
 }
@@ -907,6 +933,12 @@ func (a *answerAnalysis) escape(fn *ssa.Function, errReturnOK bool) ssa.Instruct
 				break
 			}
 			if r, ok := in.(*ssa.Return); ok {
+				if a.boolMode && len(ir.Results(r)) > 0 {
+					if cst, ok := ir.Results(r)[len(ir.Results(r))-1].(*ssa.Const); ok && cst.Value != nil && cst.Value.String() == "true" {
+						answered = true
+						break
+					}
+				}
 				if errReturnOK && len(ir.Results(r)) > 0 {
 					last := ir.Results(r)[len(ir.Results(r))-1]
 					if ir.TypeStr(last.Type()) == "error" && definitelyNonNilErr(last) {
@@ -949,6 +981,22 @@ func (a *answerAnalysis) escape(fn *ssa.Function, errReturnOK bool) ssa.Instruct
 							skip = 0
 						}
 					}
+				}
+			}
+		}
+		if len(b.Instrs) > 0 && skip < 0 {
+			if ifi, ok := b.Instrs[len(b.Instrs)-1].(*ssa.If); ok {
+				var oc *ssa.Call
+				switch x := ifi.Cond.(type) {
+				case *ssa.Call:
+					oc = x
+				case *ssa.Extract:
+					if cl, ok := x.Tuple.(*ssa.Call); ok && x.Index == cl.Call.Signature().Results().Len()-1 {
+						oc = cl
+					}
+				}
+				if oc != nil && a.callKind(oc) == ansOrOK {
+					skip = 1 // the not-ok edge was answered by the callee
 				}
 			}
 		}
